@@ -67,7 +67,7 @@ def main():
             if rc:
                 out["existing_tests_tail"] = o[-1500:]
             # demonstration
-            loc = meta.get("demo_location")
+            loc = (meta.get("demo_location") or "").split()[0] if meta.get("demo_location") else None
             demo_files = [f for f in os.listdir(sd) if f.endswith(".go")]
             if loc and demo_files:
                 dst = os.path.join(wt, loc)
